@@ -106,6 +106,54 @@ func clientinfoProbe(r *rng, n int) error {
 			emit("sid", itoa(i), sx(prof), hx(dev), "=>", res)
 			continue
 		}
+		if i%4 == 1 {
+			// one daemon lifetime: conditional profiles, the same devices seen from several subnets
+			type ent struct{ spec, tok, id string }
+			pool := []ent{{"10.1.0.0/16=", "P0a010000/16", ""}, {"192.168.0.0/16=", "Pc0a80000/16", ""}, {"fd00::/8=", "Pfd000000000000000000000000000000/8", ""},
+				{"172.16.0.0/12=", "Pac100000/12", ""}}
+			var specs, toks []string
+			np := r.rng(1, 3)
+			for j := 0; j < np; j++ {
+				e := pool[r.intn(len(pool))]
+				id := profiles[r.intn(len(profiles))]
+				if id == "" {
+					id = "zz9"
+				}
+				specs = append(specs, sx(e.spec+id))
+				toks = append(toks, e.tok, sx(id))
+			}
+			if r.coin(60) {
+				id := []string{"dflt01", "abc123"}[r.intn(2)]
+				specs = append(specs, sx(id))
+				toks = append(toks, "D", sx(id))
+			}
+			macs := []string{hx(r.bytes(6)), hx(r.bytes(6))}
+			ips := []string{"10.1.2.3", "192.168.1.77", "fd00::5", "172.16.0.9", "10.1.9.9", "8.8.4.4"}
+			nq := r.rng(2, 5)
+			var qs, mq []string
+			for k := 0; k < nq; k++ {
+				ip := ips[r.intn(len(ips))]
+				mac := "-"
+				if r.coin(75) {
+					mac = macs[r.intn(2)]
+				}
+				var ba, bm []string
+				if r.coin(30) {
+					ba = append(ba, randName(r))
+				}
+				if r.coin(30) {
+					bm = append(bm, randName(r))
+				}
+				qs = append(qs, strings.Join([]string{ip, mac, hexList(ba), hexList(bm)}, ";"))
+				mq = append(mq, strings.Join([]string{sx(ip), hx(net.ParseIP(ip)), hx(ipNorm(net.ParseIP(ip))), mac, hexList(ba), hexList(bm)}, ";"))
+			}
+			res, err := ask("cis " + strings.Join(specs, ",") + " " + strings.Join(qs, " "))
+			if err != nil {
+				return err
+			}
+			emit(append(append(append([]string{"cis", itoa(i), itoa(len(toks) / 2)}, toks...), mq...), append([]string{"=>"}, strings.Fields(res)...)...)...)
+			continue
+		}
 		ip := []string{"10.1.2.3", "192.168.1.77", "fd00::5", "2001:db8::1", "172.16.0.9"}[r.intn(5)]
 		mac := "-"
 		if r.coin(65) {
